@@ -58,18 +58,22 @@ class Shape:
             return std3, "cfg.conf", ["cfg.conf.d", "cfg.d"]
         if n == "set_conf_dirs":
             return std3, "cfg.conf", ["cfg.conf.d", "cfg/conf.d"]
-        if n in ("readdirs", "readdirscb", "readhist", "readhistcb", "rc2", "rc2cb"):
+        if n in ("readdirs", "readdirscb", "readhist", "readhistcb", "rc2", "rc2cb", "readdirscb_rel", "readhistcb_rel"):
             return [R + "/usr/etc", R + "/etc"], "cfg.conf", ["cfg.conf.d"]
         if n == "readdirs_nulldist":
             return [R + "/none", R + "/etc"], "cfg.conf", ["cfg.conf.d"]
         raise ValueError(n)
 
     def pre(self, R):
+        if self.name.endswith("_rel"):
+            return ["chdir %s" % hx(R)]       # relative directory arguments: the callback must see the relative paths
         if self.name == "set_conf_dirs":
             return ["setconfdirs %s %s" % (hx(".conf.d"), hx("/conf.d"))]
         return []
 
     def post(self):
+        if self.name.endswith("_rel"):
+            return ["chdir %s" % hx("/")]
         if self.name == "set_conf_dirs":
             return ["setconfdirs"]
         return []
@@ -107,6 +111,10 @@ class Shape:
             return ["readdirs%s %d %s %s %s %s %s" % ("cb" if (cb or n == "readdirscb") else "", h, hx(R + "/usr/etc"), hx(R + "/etc"), hx("cfg"), hx("conf"), dc)]
         if n in ("readhist", "readhistcb"):
             return ["%s %d %s %s %s %s %s" % (n, h, hx(R + "/usr/etc"), hx(R + "/etc"), hx("cfg"), hx(".conf"), dc)]
+        if n == "readdirscb_rel":
+            return ["readdirscb %d %s %s %s %s %s" % (h, hx("usr/etc"), hx("etc"), hx("cfg"), hx("conf"), dc)]
+        if n == "readhistcb_rel":
+            return ["readhistcb %d %s %s %s %s %s" % (h, hx("usr/etc"), hx("etc"), hx("cfg"), hx(".conf"), dc)]
         if n in ("rc2", "rc2cb"):
             return ["newopt %d %s" % (h, hx("PARSING_DIRS=%s/usr/etc:%s/etc" % (R, R))),
                     "readconfig%s %d %s - %s %s %s" % ("cb" if n == "rc2cb" else "", h, hx("prj"), hx("cfg"), hx("conf"), dc)]
@@ -464,7 +472,7 @@ def check_c06(exe, tier, seed, verdict):
     r, recs, total = tree_export(3, [3, 6], 12, ["bb"])
     r2, recs2, _ = tree_export(2, [3, 4, 6], 12, ["bb"])
     entries3 = ["std"]
-    entries2 = ["readdirscb", "readhistcb", "rc2cb"]
+    entries2 = ["readdirscb", "readhistcb", "rc2cb", "readdirscb_rel", "readhistcb_rel"]
     scen = []
     budget = 1500 if tier == "quick" else 20000
     pool = [(x, "std") for x in recs if len(x["log"]) >= 1] + [(x, e) for x in recs2 if len(x["log"]) >= 1 for e in entries2]
@@ -492,8 +500,8 @@ def check_c06(exe, tier, seed, verdict):
         for f in rej:
             mask |= 1 << K.index(f)
         sc.append("cbrejectk %d" % mask)
-        sc += shape.call(1, R, cb=True)
-        if ent == "readhistcb":
+        sc += shape.pre(R) + shape.call(1, R, cb=True) + shape.post()
+        if ent.startswith("readhistcb"):
             sc += ["dump %d" % h for h in range(1, 9)] + ["free %d" % h for h in range(1, 9)]
         else:
             sc += ["dump 1", "free 1"]
@@ -515,6 +523,8 @@ def check_c06(exe, tier, seed, verdict):
             continue
         root = out["root"]
         rp = {norm(k.replace(ROOT, root)): v for k, v in paths.items()}
+        if ent.endswith("_rel"):      # relative directory arguments: only the relative composition is "the exact path"
+            rp = {norm(k.replace(ROOT + "/c%d/" % (i % 16), "")): v for k, v in paths.items()}
         rd = next(e for e in out["ev"] if e["op"].startswith("read"))
         dumps = [e for e in out["ev"] if e["op"] == "dump"]
         # trace: Begin, Callback*, End
@@ -524,13 +534,14 @@ def check_c06(exe, tier, seed, verdict):
         for c in rd.get("cb", []):
             f = rp.get(norm(c["p"]), (0, 0))
             events.append({"e": "callback", "f": list(f), "verdict": c["v"], "data_ok": c["d"]})
-        if ent == "readhistcb":
+        if ent.startswith("readhistcb"):
             ents = None
             nobj = rd["n"]
             hist = []
+            absrp = {norm(k.replace(ROOT, root)): v for k, v in paths.items()}     # econf_getPath is absolute also for relative names (C17)
             for h in range(rd["n"]):
                 d = dumps[h]
-                hist.append({"f": list(rp.get(norm(d["st"]["path"]), (0, 0))) if d["st"] else [0, 0],
+                hist.append({"f": list(absrp.get(norm(d["st"]["path"]), (0, 0))) if d["st"] else [0, 0],
                              "obs": {"groups": sections_of(d), "ents": listing_of_dump(d) or []}})
             events.append({"e": "end", "rc": rd["rc"], "has_obj": bool(rd["arr"]), "kind": "hist", "hist": hist, "ents": [], "heap_ok": True, "cbused": True})
         else:
